@@ -252,7 +252,8 @@ def run_shard(spec, tier, seed):
                 ea = mode.exact(a_l)
                 for spelling, f, ref in (("boost_p4", lambda: A.boost_p4(P), lambda: R.op_boost_p4(ea, ep)),
                                          ("boost", lambda: A.boost(P), lambda: R.op_boost_p4(ea, ep)),
-                                         ("boostCM_of_p4", lambda: A.boostCM_of_p4(P), lambda: R.op_boost_p4(ea, R.RV(-ep.x, -ep.y, -ep.z, ep.t)))):
+                                         ("boostCM_of_p4", lambda: A.boostCM_of_p4(P), lambda: R.op_boost_p4(ea, R.RV(-ep.x, -ep.y, -ep.z, ep.t))),
+                                         ("boostCM_of", lambda: A.boostCM_of(P), lambda: R.op_boost_p4(ea, R.RV(-ep.x, -ep.y, -ep.z, ep.t)))):
                     try:
                         got, _gs = L.rv_of(f())
                         exp = ref()
@@ -272,6 +273,27 @@ def run_shard(spec, tier, seed):
                                       {"cell": f"{R.sysname(vsys)}|{spelling}|{R.sysname(bsys)}", "a": a_l.describe(), "booster": p_l.describe(),
                                        "gamma": mpmath.nstr(gam, 17), "error_in_roundings_of_gamma_x_unit": mpmath.nstr(err, 6)})
                     res.cell("a mass-stored booster determines the boost at float64 accuracy", R.sysname(vsys), spelling, mode.name)
+                # boost() / boostCM_of() *dispatch* on the booster's dimension: with the same (ultra-relativistic) booster, stored
+                # with t or with tau, they are the explicit spelling -- to a few roundings of the result, not to gamma^2 of them
+                for ts in (bsys, bsys[:2] + ("t",)):
+                    try:
+                        q_l = mk(p_l.rv, ts, k_ == 1)
+                    except R.NotRepresentable:
+                        continue
+                    Qb = mode.vec(q_l)
+                    for gen_name, exp_name in (("boost", "boost_p4"), ("boostCM_of", "boostCM_of_p4")):
+                        try:
+                            g1, _ = L.rv_of(getattr(A, gen_name)(Qb))
+                            g2, _ = L.rv_of(getattr(A, exp_name)(Qb))
+                        except R.NotRepresentable:
+                            continue
+                        res.evaluations += 1
+                        err = max(abs(p_ - q_) for p_, q_ in zip(g1.comps(), g2.comps())) / (gam * L.maxabs(ea) * eps)
+                        if not err <= 64:
+                            res.violation(f"C09/law-broken law={gen_name}(4D booster) is {exp_name} backend={mode.name}",
+                                          {"cell": f"{R.sysname(vsys)}|{R.sysname(ts)}", "a": a_l.describe(), "booster": q_l.describe(),
+                                           "gamma": mpmath.nstr(gam, 17), "difference_in_roundings_of_gamma_x_unit": mpmath.nstr(err, 6)})
+                        res.cell(f"{gen_name}(4D booster) is {exp_name} at any gamma", R.sysname(vsys), R.sysname(ts), mode.name)
         if di == 0:
             res.sample({"vector": a_l.describe(), "second": b_l.describe(), "mode": mode.name, "label": alab,
                         "laws_checked_so_far": res.evaluations})
